@@ -210,11 +210,12 @@ Theorem ks_nf_set_default_ok (v : ks_ver) (sh : ks_shape) (k : ks_skin) :
     kb_tt p = kh_tris sh /\ kb_vm p = ks_nseq (kh_nv sh) /\
     (kh_bs sh = true -> kb_tris p = kh_tris sh) /\
     ks_aligned (ks_nf_set_default v sh k) /\
-    (kk_dis (ks_nf_set_default v sh k) = None <-> kk_dis k = None).
+    (kk_dis (ks_nf_set_default v sh k) = None <-> kk_dis k = None) /\
+    kb_hf p = true.
 Proof.
   intros Hnv. unfold ks_nf_set_default. cbn [kk_sp kk_dis].
   assert (Hw : wrap16 (kh_nv sh) = kh_nv sh) by (unfold wrap16, wrapN; apply N.mod_small; exact Hnv).
-  eexists. split; [reflexivity|]. split; [|split; [|split; [|split]]].
+  eexists. split; [reflexivity|]. split; [|split; [|split; [|split; [|split]]]].
   - destruct (0 <? kh_nv sh); destruct (kh_tris sh) as [|t ts] eqn:Et; cbn; try rewrite Bool.negb_involutive;
       destruct (kh_bs sh); reflexivity.
   - destruct (N.ltb_spec 0 (kh_nv sh)) as [Hp|Hz].
@@ -227,6 +228,8 @@ Proof.
     destruct (0 <? kh_nv sh); reflexivity.
   - unfold ks_aligned. cbn [kk_dis kk_sp kp_parts]. destruct (kk_dis k); reflexivity.
   - destruct (kk_dis k); split; intros; congruence.
+  - destruct (0 <? kh_nv sh); destruct (ks_isnil (kh_tris sh)); cbn [negb]; try rewrite Bool.negb_involutive;
+      destruct (kh_bs sh); reflexivity.
 Qed.
 
 (* ---------------------------------------------------------------------------------------- *)
